@@ -449,6 +449,34 @@ class Evaluator:
         self.enum_classes = {c for c in program.all_classes() if c.has_extern_base("Enum") or any(
             b.has_extern_base("Enum") for b in c.mro)}
 
+    def mutated_class_state(self) -> set:
+        """names of class-level attributes bound to a mutable display ({}, [], set()) that some function in the package
+        writes into (subscript store, mutating method): their initial value says nothing about their contents"""
+        cached = getattr(self.p, "_mutated_class_state", None)
+        if cached is not None:
+            return cached
+        cand = set()
+        for c in self.p.all_classes():
+            for n_, v_ in c.class_attrs.items():
+                if isinstance(v_, (ast.Dict, ast.List, ast.Set)) or (isinstance(v_, ast.Call) and isinstance(v_.func, ast.Name) and v_.func.id in ("dict", "list", "set", "defaultdict", "OrderedDict")):
+                    cand.add(n_)
+        out = set()
+        MUT = {"append", "add", "update", "setdefault", "pop", "popitem", "clear", "extend", "insert", "remove", "discard", "__setitem__"}
+        for f in self.p.all_functions():
+            for n in ast.walk(f.node):
+                tgt = None
+                if isinstance(n, (ast.Assign, ast.AugAssign, ast.AnnAssign)):
+                    for t in (n.targets if isinstance(n, ast.Assign) else [n.target]):
+                        for sub in ast.walk(t):
+                            if isinstance(sub, ast.Subscript) and isinstance(sub.value, ast.Attribute) and sub.value.attr in cand:
+                                out.add(sub.value.attr)
+                elif isinstance(n, ast.Call) and isinstance(n.func, ast.Attribute) and n.func.attr in MUT and isinstance(n.func.value, ast.Attribute) and n.func.value.attr in cand:
+                    # instance attributes of the same name assigned in __init__ shadow the class attribute: only count
+                    # receivers that are not plainly instance state is not decidable here, so be conservative
+                    out.add(n.func.value.attr)
+        self.p._mutated_class_state = out
+        return out
+
     # ------------------------------------------------------------------ entry points
     def self_obj(self, cls: ClassInfo, attrs: dict | None = None) -> Obj:
         return Obj(cls, attrs, "self", root=True)
@@ -884,6 +912,8 @@ class Evaluator:
             inst_kinds = {k for k in self.p.attr_kinds(base.cls).get(name, set()) if not k.startswith("class:")}
             ca = base.cls.class_attr(name)
             if ca is not None and not inst_kinds:
+                if name in self.mutated_class_state():
+                    return Sym("attr", (base, name))      # a class-level container that some function writes: contents unknown
                 return self.eval_in_module(ca[1], ca[0].module, ca[0])
             if name == "__class__":
                 return ClassRef(base.cls)
